@@ -30,8 +30,8 @@ META = {
 
 # family of a generated case -> the MC_Codecs action that produced it
 FAMILY_ACTION = {"a85": "PickA85", "a85ws": "PickA85Ws", "zstored": "PickZ", "lzw": "PickLzw", "lzwlong": "PickLzwLong",
-                 "png": "PickPng", "nofilter": "PickNoFilter", "pngbytes": "PickPngBytes", "chain": "PickChain", "row4": "PickPaeth", "row": "PickRow"}
-SHORT = {"FlateDecode": "flate", "LZWDecode": "lzw", "ASCII85Decode": "a85"}
+                 "png": "PickPng", "nofilter": "PickNoFilter", "ahx": "PickAHx", "rl": "PickRL", "tiff": "PickTiff", "pngsub": "PickPngSub", "pngbytes": "PickPngBytes", "chain": "PickChain", "row4": "PickPaeth", "row": "PickRow", "rowenc": "PickRowEnc", "indirect": "PickIndirect"}
+SHORT = {"FlateDecode": "flate", "LZWDecode": "lzw", "ASCII85Decode": "a85", "ASCIIHexDecode": "ahx", "RunLengthDecode": "rl"}
 
 
 VACUITY = []     # vacuity complaints are raised (exit 2) only when the run found no violation: they must not mask one
@@ -51,7 +51,9 @@ def input_class(c):
     for st in c["chain"]:
         p = SHORT.get(st["f"], "other")
         if st["pred"] >= 10:
-            p += "+png"
+            p += "+png" if st["bpc"] >= 8 else "+png%dbit" % st["bpc"]
+        if st["pred"] == 2:
+            p += "+tiff%dbit" % st["bpc"]
         if st["f"] == "LZWDecode" and st["early"] == 0:
             p += "+early0"
         parts.append(p)
@@ -149,15 +151,52 @@ def judge_history(chk, c, r, st):
                        "spec_plain": c["plain"], "lopdf_fresh_thread": r["dc"], "lopdf_after_disturbance": d["dc"]})
 
 
+def judge_indirect(c, r):
+    """An entry of the stream dictionary is written as an indirect reference (legal: ISO 32000-1 7.3.10); c['chain']
+    holds the resolved stages, so c['plain'] is what the stream means.  Stream methods cannot resolve a reference:
+    they may refuse, they must not guess - every Ok answer is the plain data, and decompress (Stream or Document
+    level) either leaves the stream exactly as it was or replaces it by the plain data."""
+    want, enc, x = c["plain"], c["enc"], r["ind"]
+    det = {"indirect_entry": c["ind"], "key": c["key"], "stage": c["idx"], "dictionary": x["dict"], "resolved_chain": c["chain"],
+           "encoded": enc, "spec_plain": want, "decompressed_content": r["dc"], "get_plain_content": r["gp"],
+           "after_Stream_decompress": r["dz"], "after_Document_decompress": x["doc_decompress"]}
+    if any("panic" in v for v in (r["dc"], r["gp"], r["dz"], x["doc_decompress"])):
+        return "C09:panic.indirect." + c["ind"], det
+    bad = []          # (what, exactly as if the referenced entry were absent?)
+    for what, v, a in (("decompressed_content", r["dc"], x["abs"]["dc"]), ("get_plain_content", r["gp"], x["abs"]["gp"])):
+        if v["ok"] and v["data"] != want:
+            bad.append((what, a["ok"] and a["data"] == v["data"]))
+    for what, z in (("Stream::decompress", r["dz"]), ("Document::decompress", x["doc_decompress"])):
+        kept = z["content"] == enc and z["has_filter"]
+        done = z["content"] == want and not z["has_filter"]
+        if z["length"] != len(z["content"]):
+            bad.append((what + ".length", False))
+        elif not (kept or done):
+            bad.append((what, z["content"] == x["abs"]["dz"]["content"]))
+    if not bad:
+        return None, det
+    det["broken"] = [b[0] for b in bad]
+    if all(b[1] for b in bad):
+        return "C09:indirect." + c["ind"], det          # the open finding, in its exact form
+    return "C09:indirect-other.%s.%s" % (c["ind"], [b[0] for b in bad if not b[1]][0]), det
+
+
 def judge_row(c, r):
     det = {"filter_type": c["ft"], "bpp": c["bpp"], "prev": c["prev"], "cur": c["cur"], "spec_row": c["want"], "lopdf_row": r["row"]}
     if "panic" in r:
         return "C09:panic.row", det
-    if r["row"] == c["want"]:
+    if r["row"] == c["want"] and r["enc"] == c["encwant"] and r["rt"] == c["cur"]:
         return None, det
-    if c["ft"] == 3 and r["row"] == c["avgdev"]:      # exactly the repaired defect (left + above/2)
-        return "C09:png.avg", det
-    return "C09:png.row.ft%d" % c["ft"], det
+    if r["row"] != c["want"]:
+        if c["ft"] == 3 and r["row"] == c["avgdev"]:      # exactly the repaired defect (left + above/2)
+            return "C09:png.avg", det
+        return "C09:png.row.ft%d" % c["ft"], det
+    # encode_row on the same bytes as raw data: what PNG 9 defines, and decode_row gives the raw row back
+    det = {"filter_type": c["ft"], "bpp": c["bpp"], "prev": c["prev"], "raw": c["cur"], "spec_encode_row": c["encwant"],
+           "lopdf_encode_row": r["enc"], "lopdf_decode_row_of_that": r["rt"]}
+    if c["ft"] == 3 and r["enc"] == c["encdev"]:          # exactly: left + above added in u8 before halving
+        return "C09:png.encode-avg", det
+    return "C09:png.encode_row.ft%d" % c["ft"], det
 
 
 def case_key(c):
@@ -165,8 +204,6 @@ def case_key(c):
 
 
 def family(c):
-    if c["k"] == "row":
-        return "row4" if c["ft"] == 4 else "row"
     return c["fam"]
 
 
@@ -190,7 +227,7 @@ def codec_phase(chk, tier, w):
     for c in cases:
         fams[family(c)] = fams.get(family(c), 0) + 1
     r.coverage = {FAMILY_ACTION[f]: (n, n) for f, n in fams.items()}
-    need = ["PickA85", "PickA85Ws", "PickZ", "PickLzw", "PickLzwLong", "PickPng", "PickPaeth", "PickRow", "PickChain", "PickNoFilter"]
+    need = ["PickA85", "PickA85Ws", "PickZ", "PickLzw", "PickLzwLong", "PickPng", "PickPaeth", "PickRow", "PickChain", "PickNoFilter", "PickAHx", "PickRL", "PickTiff", "PickPngSub", "PickRowEnc", "PickIndirect"]
     if tier != "quick":
         need.append("PickPngBytes")
     vlib.require_coverage(r, need)
@@ -208,12 +245,18 @@ def codec_phase(chk, tier, w):
     for c, r_ in zip(cases, results):
         nontrivial = (c["k"] == "row") or len(c["plain"]) > 0
         chk.case(case_key(c) if nontrivial else None)
-        sig, det = judge_row(c, r_) if c["k"] == "row" else judge_zero(c, r_) if not c["chain"] else judge_chain(c, r_)
+        sig, det = judge_row(c, r_) if c["k"] == "row" else judge_zero(c, r_) if not c["chain"] else \
+            judge_indirect(c, r_) if c.get("ind", "none") != "none" else judge_chain(c, r_)
         if sig:
             chk.violation(sig, det)
         else:
             chk.traces += 1
         ans = "gp" if c["k"] == "chain" and not c["chain"] else "dc"      # zero filters: get_plain_content answers
+        if c.get("ind", "none") != "none":
+            passed[family(c)] = passed.get(family(c), 0) + (sig is None or sig.startswith("C09:indirect."))
+            if r_["dc"] != c["impldc"] and not (not r_["dc"]["ok"] and not c["impldc"]["ok"]):
+                chk.extra["model_drift"] = chk.extra.get("model_drift", 0) + 1
+            continue
         if (r_["row"] == c["want"]) if c["k"] == "row" else (r_[ans]["ok"] and r_[ans]["data"] == c["plain"]):
             passed[family(c)] = passed.get(family(c), 0) + 1
         judge_history(chk, c, r_, hist_stats)
@@ -246,7 +289,7 @@ def codec_phase(chk, tier, w):
     chk.sample({"family": "nofilter", "Filter": "[]", "paramsForm": cases[i]["form"], "content": cases[i]["plain"][:24],
                 "lopdf_decompressed_content": results[i]["dc"], "lopdf_get_plain_content": results[i]["gp"]["data"][:24],
                 "lopdf_content_after_decompress": results[i]["dz"]["content"][:24]})
-    for fam in ("png", "lzwlong", "chain", "a85ws"):
+    for fam in ("png", "lzwlong", "chain", "a85ws", "tiff", "rl"):
         i = next(i for i, c in enumerate(cases) if family(c) == fam and len(c.get("plain", [])) > 3)
         c = cases[i]
         chk.sample({"family": fam, "plain": c["plain"][:24], "chain": c["chain"], "paramsForm": c["form"],
@@ -268,6 +311,19 @@ def require_classes(cases):
     ll = [c for c in cases if c["k"] == "chain" and c["fam"] == "lzwlong"]
     if {c["chain"][0]["early"] for c in ll} != {0, 1} or not all(len(c["enc"]) * 8 // 9 > 260 for c in ll):
         raise vlib.ToolError("vacuous: long LZW cases do not cross the 9->10 bit boundary with both EarlyChange values")
+    tiff = [c for c in cases if c["k"] == "chain" and c["fam"] == "tiff"]
+    if {c["chain"][0]["bpc"] for c in tiff} != {1, 2, 4, 8, 16} or \
+            not any(len(c["plain"]) % ((c["chain"][0]["columns"] * c["chain"][0]["colors"] * c["chain"][0]["bpc"] + 7) // 8) for c in tiff):
+        raise vlib.ToolError("vacuous: TIFF predictor cases lack a component width or a short last row")
+    if {c["chain"][0]["bpc"] for c in cases if c["k"] == "chain" and c["fam"] == "pngsub"} != {1, 2, 4}:
+        raise vlib.ToolError("vacuous: sub-byte PNG cases lack a component width")
+    rl = [c for c in cases if c["k"] == "chain" and c["fam"] == "rl"]
+    if not {0, 1, 126, 127, 129, 130, 255} <= {c["enc"][0] for c in rl if c["enc"]} or not any(c["enc"] and c["enc"][-1] != 128 for c in rl):
+        raise vlib.ToolError("vacuous: RunLength cases lack a length byte 0/1/126/127 (literal), 129/130/255 (run) or a missing EOD")
+    ahx = [c for c in cases if c["k"] == "chain" and c["fam"] == "ahx"]
+    if not any(c["enc"] and c["enc"][-1] != 62 for c in ahx) or not any(0 in c["enc"] and 12 in c["enc"] for c in ahx) or \
+            not any(sum(1 for b in c["enc"] if chr(b) in "0123456789abcdefABCDEF") % 2 for c in ahx):
+        raise vlib.ToolError("vacuous: ASCIIHex cases lack a missing EOD, NUL/FF white-space or an odd digit count")
     zero = {(c["ff"], c["form"]) for c in cases if c["k"] == "chain" and not c["chain"] and c["plain"]}
     if zero != {(f, d) for f in ("absent", "null", "empty") for d in ("none", "array", "dict")}:
         raise vlib.ToolError("vacuous: zero-filter cases lack a spelling of Filter / DecodeParms")
@@ -319,7 +375,7 @@ def streamops_model(chk, tier):
     if r.tagged("DEVIATION"):
         raise vlib.ToolError("StreamOps model as the code is reports a deviation")
     for cfg, cls in (("devAvg", "png.avg"), ("devArr", "decodeparms.array"), ("devStale", "compress.stale-decodeparms"),
-                     ("devEmpty", "filter.empty-array")):
+                     ("devEmpty", "filter.empty-array"), ("devInd", "indirect.parms")):
         d = tlc("MC_StreamOps.tla", "MC_StreamOps_%s.cfg" % cfg, workers=2, timeout=600)
         chk.add_tlc(d)
         seen = {tuple(x) for x in d.tagged("DEVIATION")}
@@ -339,7 +395,7 @@ def streamops_model(chk, tier):
     if not all(any(k.startswith("history.") for k in x) for x in d.tagged("DEVIATION")) or \
             seen != {"history.png.cut-row", "history.png.bad-type", "history.zlib.cut"}:
         raise vlib.ToolError("deviation switch devRows: model shows %s" % sorted({tuple(x) for x in d.tagged("DEVIATION")}))
-    chk.extra["seeded_design_deviations_detected"] = 5
+    chk.extra["seeded_design_deviations_detected"] = 6
 
 
 def add_oracle(recs):
@@ -384,15 +440,16 @@ def trace_phase(chk, tier, w):
             if v["v"] == "ok-drift":
                 chk.extra["model_drift"] = chk.extra.get("model_drift", 0) + 1
         else:
-            strip = lambda s: {k: s[k] for k in ("filters", "fform", "form", "parms", "length", "content", "allows", "dc")}
+            strip = lambda s: {k: s[k] for k in ("filters", "fform", "form", "parms", "ind", "length", "content", "allows", "dc", "gp")}
             chk.violation("C09:" + v["v"], {"op": rec["op"], "stream": rec["sid"], "arg": rec["arg"], "res": rec["res"],
                                             "last_disturbance_of_the_thread": rec["dk"], "right_before_this_call": rec["dnow"],
                                             "fresh_thread_agrees": rec["fresh_same"] and not any(s["hs"] for s in rec["post"]),
                                             "pre": [strip(s) for s in prev["post"]] if prev and rec["op"] != "reset" else [],
-                                            "post": [strip(s) for s in rec["post"]]})
+                                            "post": [strip(s) for s in rec["post"]], "row": rec.get("row", {})})
     # (B) the recorded set must contain the interesting transitions
     stats = {"compress_added_filter": 0, "decompress_removed_filter": 0, "roundtrip_compress_decompress": 0, "set_content": 0,
              "set_plain_content": 0, "doc_ops": 0, "python_inflated_states": inflated,
+             "calls_on_streams_with_indirect_entries": 0, "random_rows_encode_decode": 0, "random_average_rows_that_wrap": 0,
              "calls_after_disturbance": 0, "predictor_decodes_after_disturbance": 0,
              "decompress_of_empty_filter_array": 0, "null_filter_states": 0, "empty_filter_array_with_empty_decodeparms": 0}
     for i in range(1, len(recs)):
@@ -404,6 +461,13 @@ def trace_phase(chk, tier, w):
         if rec["op"].startswith("doc_"):
             stats["doc_ops"] += 1
         stats["calls_after_disturbance"] += rec["dnow"]
+        if rec["op"] == "row":
+            stats["random_rows_encode_decode"] += 1
+            rw = rec["row"]
+            stats["random_average_rows_that_wrap"] += rw["ft"] == 3 and any(
+                rw["raw"][i - rw["bpp"]] + rw["prev"][i] >= 256 for i in range(min(rw["bpp"], len(rw["raw"])), len(rw["raw"])))
+            continue
+        stats["calls_on_streams_with_indirect_entries"] += any(b["ind"] != "none" for b in rec["post"])
         for j, (a, b) in enumerate(zip(prev["post"], rec["post"])):
             stats["predictor_decodes_after_disturbance"] += rec["dnow"] and rec["dk"] in DIRTYING and bool(b["filters"]) and \
                 any(p["present"] and p["pred"] >= 10 for p in b["parms"])
